@@ -111,6 +111,7 @@ class TimerScheduler:
             current_time = time.time()
             if current_time >= next_resume_time:
                 # Time to resume
+                to_resubmit: ExecutableWithState | None = None
                 with self._lock:
                     # no branch cover because hard to test reliably - this is a double-safety check if heap mutated
                     # since the first peek on next_resume_time further up
@@ -121,7 +122,12 @@ class TimerScheduler:
                         _, _, exe_state = heapq.heappop(self._pending_resumes)
                         if exe_state.can_resume:
                             exe_state.reset_to_pending()
-                            self.resubmit_callback(exe_state)
+                            to_resubmit = exe_state
+                # Resubmit outside the lock: if the resubmitted task finishes before its done
+                # callback is attached, the callback runs right here on the timer thread, and a
+                # task that suspends again calls schedule_resume(), which takes the same lock.
+                if to_resubmit is not None:
+                    self.resubmit_callback(to_resubmit)
             else:
                 # Wait until next resume time
                 wait_time = min(next_resume_time - current_time, 0.1)
